@@ -75,16 +75,18 @@ type Monitor interface {
 
 // Ctx is what monitors see.
 type Ctx struct {
-	W     *World
-	Sc    *Scenario
-	Mon   MonState // mutable: state after this transition
-	Label string   // label of the transition being executed
-	Pre   *Pre     // facts captured before the transition
-	ex    *Explorer
-	node  *node // source node of the transition
+	W      *World
+	Sc     *Scenario
+	Mon    MonState // mutable: state after this transition
+	Label  string   // label of the transition being executed
+	Pre    *Pre     // facts captured before the transition
+	ex     *Explorer
+	node   *node // source node of the transition
+	Suffix []string
 }
 
 // Violate reports a violation with the trace reaching it.
+// (Ctx.Suffix: labels executed after x.node in a default continuation, see defaultContinuations)
 func (x *Ctx) Violate(sig, detail string) {
 	x.ex.violate(x, sig, detail)
 }
@@ -129,8 +131,17 @@ type Config struct {
 	// DisturbOncePerControlState applies the same bound to fault points (crash after write i, error / conflict at
 	// call j of a reconcile): one representative state per abstract control state
 	DisturbOncePerControlState bool
-	EarlyTicks                 bool // thorough: ticks also while work is pending (counted as disturbance)
-	Verbose                    bool
+	// NoCost: actions of the plan that do not consume the user budget in this plan (see UserAction.NoCost)
+	NoCost map[string]bool
+	// DefaultContinuations: when the undisturbed graph is complete and before the continuations of the deviations are
+	// explored breadth-first (which a state cap or deadline may cut), every deviation point gets ONE complete
+	// continuation under the default schedule (first state-changing controller / environment / gc transition,
+	// approvals granted, time advanced when nothing else moves) down to a final state, with all monitors attached:
+	// every deviation's outcome is judged at least along that schedule
+	DefaultContinuations bool
+	ContinuationBudget   time.Duration
+	EarlyTicks           bool // thorough: ticks also while work is pending (counted as disturbance)
+	Verbose              bool
 }
 
 type Explorer struct {
@@ -143,6 +154,7 @@ type Explorer struct {
 	frontier   []int
 	frontier2  []int // nodes that already spent deviation budget
 	initBudget Budget
+	contDone   bool
 	Counters   map[string]int64
 	cur        *Ctx
 
@@ -210,6 +222,7 @@ func (ex *Explorer) violate(x *Ctx, sig, detail string) {
 	}
 	ex.violated[sig] = true
 	tr := ex.trace(x.node)
+	tr = append(tr, x.Suffix...)
 	if x.Label != "" {
 		tr = append(tr, x.Label)
 	}
@@ -264,7 +277,7 @@ func (ex *Explorer) enabled(n *node) enabledSet {
 		if a == nil {
 			continue
 		}
-		if !a.Free && !a.NoCost && n.budget.User <= 0 {
+		if !a.Free && !a.NoCost && !ex.Cfg.NoCost[name] && n.budget.User <= 0 {
 			continue
 		}
 		if a.OneShot && n.budget.Used&(1<<ex.actionIndex[name]) != 0 {
@@ -497,6 +510,10 @@ func (ex *Explorer) Run(initBudget Budget) {
 	ex.addState(nil, "", MonState{}, initBudget, true, false)
 	for len(ex.frontier) > 0 || len(ex.frontier2) > 0 {
 		if len(ex.frontier) == 0 {
+			if !ex.contDone && ex.Cfg.DefaultContinuations {
+				ex.contDone = true
+				ex.defaultContinuations()
+			}
 			ex.frontier, ex.frontier2 = ex.frontier2, nil
 		}
 		if ex.Cfg.StateCap > 0 && len(ex.nodes) >= ex.Cfg.StateCap {
@@ -636,7 +653,7 @@ func (ex *Explorer) expand(n *node) {
 			ex.Counters["deviation points used"]++
 		}
 		nb := n.budget
-		if !a.Free && !a.NoCost {
+		if !a.Free && !a.NoCost && !ex.Cfg.NoCost[a.Name] {
 			nb.User--
 		}
 		if a.OneShot {
@@ -832,4 +849,99 @@ func (ex *Explorer) Script(items []string, verbose bool) []string {
 		step(it)
 	}
 	return done
+}
+
+// defaultContinuations: see Config.DefaultContinuations. The nodes in frontier2 at this moment are exactly the states
+// right after a deviation (user action or fault) injected into the undisturbed graph.
+func (ex *Explorer) defaultContinuations() {
+	w := ex.W
+	start := time.VerifRealNow()
+	points := append([]int(nil), ex.frontier2...)
+	done := 0
+	seen := map[string]bool{}
+	for _, id := range points {
+		if ex.Cfg.ContinuationBudget > 0 && time.VerifRealNow().Sub(start) > ex.Cfg.ContinuationBudget {
+			break
+		}
+		if !ex.Cfg.Deadline.IsZero() && time.VerifRealNow().After(ex.Cfg.Deadline) {
+			break
+		}
+		n := ex.nodes[id]
+		w.Restore(n.snap)
+		mon := n.mon.clone()
+		var suffix []string
+		merged := false
+		own := map[string]bool{} // states of THIS continuation (a wait loop revisits them; that is not a merge)
+		step := func(label string) bool {
+			before := w.Key(mon.String())
+			x := &Ctx{W: w, Sc: ex.Cfg.Sc, Mon: mon, ex: ex, node: n, Suffix: suffix}
+			x.Pre = CapturePre(w, ex.Cfg.Sc)
+			ex.exec(x, label, Fault{})
+			ex.Counters["default-continuation transitions"]++
+			after := w.Key(mon.String())
+			if after == before {
+				return false
+			}
+			suffix = append(suffix, label)
+			// the default schedule is deterministic: from a state an earlier continuation has passed through, the
+			// rest of this continuation would repeat what was already executed and judged
+			if seen[after] && !own[after] {
+				merged = true
+			}
+			seen[after], own[after] = true, true
+			return true
+		}
+		idle := int64(0)
+		last := "" // the transition that moved last is tried first: controllers usually move several times in a row
+		for i := 0; i < 1500 && !merged; i++ {
+			moved := false
+			fair := ex.enabled(n).fair
+			// round robin: start after the transition that moved last, so that a controller flipping between two
+			// states while it waits (Verifying <-> Upgrading) cannot starve the environment
+			if last != "" {
+				for k, l := range fair {
+					if l == last {
+						fair = append(append([]string{}, fair[k+1:]...), fair[:k+1]...)
+						break
+					}
+				}
+			}
+			for _, label := range fair {
+				if step(label) {
+					moved, last = true, label
+					break
+				}
+			}
+			if moved {
+				idle = 0
+				continue
+			}
+			// nothing moves: grant a pending approval, else let time pass
+			if a := ex.actions["approve"]; a != nil && a.Guard != nil && a.Guard(w, ex.Cfg.Sc, mon) && step("user:approve") {
+				idle = 0
+				continue
+			}
+			if idle > AgeCap+1 {
+				break
+			}
+			idle++
+			x := &Ctx{W: w, Sc: ex.Cfg.Sc, Mon: mon, ex: ex, node: n, Suffix: suffix}
+			ex.exec(x, "tick", Fault{})
+			suffix = append(suffix, "tick")
+		}
+		if os.Getenv("VERIF_CONT_DEBUG") != "" {
+			fmt.Fprintf(os.Stderr, "CONT %s steps=%d merged=%v idle=%d end=%s\n", n.label, len(suffix), merged, idle, ControlState(w, ex.Cfg.Sc))
+		}
+		if merged {
+			ex.Counters["default continuations that merged into an earlier one"]++
+		} else {
+			x := &Ctx{W: w, Sc: ex.Cfg.Sc, Mon: mon, ex: ex, node: n, Suffix: suffix}
+			for _, m := range ex.Cfg.Monitors {
+				m.OnState(x, idle > AgeCap+1)
+			}
+		}
+		done++
+	}
+	ex.Counters["deviation points with a complete default continuation"] = int64(done)
+	ex.Counters["deviation points at the end of the undisturbed search"] = int64(len(points))
 }
